@@ -250,6 +250,7 @@ type sessionT struct {
 	Dump     []interp.VerifC19Node
 	Problem  string // harness-side trouble (compile error, …)
 	CmdsUsed int
+	BpCrash  bool // the Go panic (or hang) happened inside SetBreakpoints
 }
 
 var stepCount int64
@@ -298,10 +299,12 @@ func runDebug(src string, bps []bpT, cmds string) (s sessionT) {
 			evc <- ev
 		}, nil)
 		if len(bps) > 0 {
+			s.BpCrash = true
 			for _, b := range dbg.SetBreakpoints(interp.ProgramBreakpointTarget(prog), bpRequests(bps)...) {
 				s.BpValid = append(s.BpValid, b.Valid)
 				s.BpLines = append(s.BpLines, b.Position.Line)
 			}
+			s.BpCrash = false
 		}
 		ci := 0
 		terminated := false
